@@ -1,8 +1,13 @@
-(* C19 — vmap over tensordicts equals the per-sample loop (partial: the shape / names / stack-dim bookkeeping of the
-   functorch hooks is proved; functorch's batching rules are trusted and exercised by the differential run). *)
-From Coq Require Import ZArith List Bool.
+(* C19 — vmap over tensordicts equals the per-sample loop.
+   Proved: the shape / names / stack-dim bookkeeping of the functorch hooks; the ELEMENT-level statement "vmap f = stack of f on
+   the slices" for every f, rank, in_dim, out_dim >= 0 and nesting depth 2, with functorch's batching rules made explicit as
+   ONE trusted definition (Model.C19_Content.lift: a function applied to batched values runs on every sample); the input /
+   output plumbing of the monkey-patched vmap; the memoisation of batched views on locked tensordicts; the hidden-stack-dim
+   op classes of lazy stacks (D33, D192 backed by refutations).  functorch itself is exercised by the differential run. *)
+From Coq Require Import ZArith List Bool Lia.
 Import ListNotations.
-From TD Require Import Model.C19_Vmap Proofs.C19_VmapP.
+From TD Require Import Model.C19_Vmap Model.C19_Content Model.C19_Plumb Model.C19_Memo.
+From TD Require Import Proofs.C19_VmapP Proofs.C19_ContentP Proofs.C19_PlumbP Proofs.C19_MemoP Proofs.C19_LazyP.
 Open Scope nat_scope.
 
 (* vmap(identity, in_dims = i, out_dims = o): hiding dim i then re-inserting the batch at o is torch's movedim on the batch
@@ -42,10 +47,229 @@ Theorem C19_negative_out_dim_differs : exists bs B, td_remove bs B (-1) <> inser
 Proof. exact negative_out_dim_differs. Qed.
 Print Assumptions C19_negative_out_dim_differs.
 
-(* the full property (vmap f = stack of f on slices, for every f) is NOT a theorem here: functorch's batching rules are
-   runtime behaviour.  Stated for the record; decided per run by the differential check only. *)
-Definition C19_full_statement_not_proved : Prop :=
-  forall (f_commutes_with_batching : Prop), f_commutes_with_batching -> True.
+(* ================= (a) element level: vmap f = stack of f over the slices ================= *)
+(* what the function is shown, sample by sample, is the slice along in_dim *)
+Theorem C19_sample_is_slice : forall V (t : tdict V) d j, sample (td_add_c t d) j = slice t d j.
+Proof. exact sample_add_is_slice. Qed.
+Print Assumptions C19_sample_is_slice.
+
+(* for EVERY per-sample function f, tensordict (any rank, names, schema), in_dim d and out_dim 0 <= o <= rank of the
+   per-sample result: the call is accepted (every leaf starts with the new batch size), its batch size is B inserted at o,
+   its names / schema are those of the per-sample result (None at o), and EVERY element of every leaf is the element of
+   torch.stack([f(slice_j)], o) *)
+Theorem C19_vmap_eq_loop : forall V (f : tdict V -> tdict V) (t : tdict V) d o,
+  o <= length (bs (f (slice t d 0))) ->
+  exists R, vmap1 f d (Z.of_nat o) t = Ok R
+    /\ bs R = insert_at (bs (f (slice t d 0))) o (nth d (bs t) 0)
+    /\ nms R = names_remove (nms (f (slice t d 0))) (Z.of_nat o)
+    /\ schema R = schema (f (slice t d 0))
+    /\ forall k I, val R k I = stack_val (fun j => f (slice t d j)) o k I.
+Proof. exact vmap1_eq_loop. Qed.
+Print Assumptions C19_vmap_eq_loop.
+
+(* the same addressed by (sample j, element r of f(slice_j)) *)
+Theorem C19_vmap_elements : forall V (f : tdict V -> tdict V) (t : tdict V) d o,
+  o <= length (bs (f (slice t d 0))) ->
+  exists R, vmap1 f d (Z.of_nat o) t = Ok R /\
+    forall k j r, o <= length r -> val R k (insert_at r o j) = val (f (slice t d j)) k r.
+Proof. exact vmap1_elements. Qed.
+Print Assumptions C19_vmap_elements.
+
+Example C19_vmap_eq_loop_ex :
+  let t := addr_td [2; 3] (Some [Some 0; Some 1]) [(0, [4])] in
+  1 <= length (bs (slice t 0 0)) /\
+  exists R, vmap1 (fun s => s) 0 1 t = Ok R /\ bs R = [3; 2] /\ nms R = Some [Some 1; None] /\ val R 0 [2; 1; 3] = [0; 1; 2; 3].
+Proof. split; [cbn; lia|]. eexists. split; [vm_compute; reflexivity|]. repeat split; reflexivity. Qed.
+
+(* names through vmap(identity): untouched dims keep their names in order, None at out_dim; a single named dim is lost *)
+Theorem C19_names_identity : forall (l : list (option nat)) d o,
+  d < length l ->
+  names_remove (names_add (Some l) d) (Z.of_nat o) =
+  if length l =? 1 then None else Some (insert_at (remove_nth l d) o None).
+Proof. exact names_identity. Qed.
+Print Assumptions C19_names_identity.
+
+(* nested vmap of depth 2, every (d1, o1, d2, o2): batch size and every element of the doubly stacked result *)
+Theorem C19_vmap2_eq_loop : forall V (f : tdict V -> tdict V) (t : tdict V) d1 o1 d2 o2,
+  (forall j1, o2 <= length (bs (f (slice (slice t d1 j1) d2 0)))) ->
+  o1 <= S (length (bs (f (slice (slice t d1 0) d2 0)))) ->
+  exists R, vmap1 (vmap1_total f d2 (Z.of_nat o2)) d1 (Z.of_nat o1) t = Ok R
+    /\ bs R = insert_at (insert_at (bs (f (slice (slice t d1 0) d2 0))) o2 (nth d2 (remove_nth (bs t) d1) 0)) o1 (nth d1 (bs t) 0)
+    /\ forall k I, val R k I =
+         val (f (slice (slice t d1 (nth o1 I 0)) d2 (nth o2 (remove_nth I o1) 0))) k (remove_nth (remove_nth I o1) o2).
+Proof. exact vmap2_eq_loop. Qed.
+Print Assumptions C19_vmap2_eq_loop.
+
+Example C19_vmap2_ex :
+  let t := addr_td [2; 3; 2] None [(0, [])] in
+  exists R, vmap1 (vmap1_total (fun s => s) 1 0) 0 2 t = Ok R /\ bs R = [2; 3; 2] /\ val R 0 [1; 2; 0] = [0; 0; 2; 1].
+Proof. eexists. split; [vm_compute; reflexivity|]. split; reflexivity. Qed.
+
+(* the statement for EVERY out_dim that names a position of the result (negative ones included) is false of the code (S8,
+   findings D190 / D191): kept visible, refuted by witnesses; the part proved is C19_vmap_eq_loop (out_dim >= 0) *)
+Definition C19_every_out_dim_full_statement : Prop :=
+  forall V (f : tdict V -> tdict V) (t : tdict V) d (o : Z) p,
+    torch_wrap o (length (bs (f (slice t d 0))) + 1) = Some p ->
+    exists R, vmap1 f d o t = Ok R /\ forall k I, val R k I = stack_val (fun j => f (slice t d j)) p k I.
+Theorem C19_negative_out_dim_silently_wrong_refuted :
+  exists R, vmap1 (fun s => s) 0 (-1) w_td = Ok R /\ bs R = [3; 3] /\
+    val R 0 [0; 1; 2] <> stack_val (fun j => slice w_td 0 j) 1 0 [0; 1; 2].
+Proof. exact negative_out_dim_silently_wrong. Qed.
+Print Assumptions C19_negative_out_dim_silently_wrong_refuted.
+Theorem C19_negative_out_dim_raises_refuted :
+  vmap1 (fun s => s) 0 (-1) (addr_td [2; 3] None [(0, [4])]) = Raise RuntimeErr.
+Proof. exact negative_out_dim_raises. Qed.
+Print Assumptions C19_negative_out_dim_raises_refuted.
+(* an out_dim that is NOT a position (rank + 1) is accepted when the first feature dim has the batch's size *)
+Theorem C19_too_large_out_dim_accepted :
+  exists R, vmap1 (fun s => s) 0 2 (addr_td [2; 3] None [(0, [2])]) = Ok R /\ bs R = [3; 2].
+Proof. exact too_large_out_dim_accepted. Qed.
+Print Assumptions C19_too_large_out_dim_accepted.
+
+(* ================= (b) input / output plumbing ================= *)
+Theorem C19_bcast_length : forall A B (d : ptree A) (t : ptree B) l, bcast d t = Some l -> length l = length (flatten t).
+Proof. exact @bcast_length. Qed.
+Print Assumptions C19_bcast_length.
+
+(* accepted inputs: one entry per flat argument; int in_dim => tensor(dict), dim inside its rank, size B along it, batched
+   exactly along it; None => handed over as it is *)
+Theorem C19_process_create : forall in_dims args B dims flat,
+  process in_dims args = POk B dims flat ->
+  flat = flatten (PTup args) /\ length dims = length flat /\
+  forall i a, nth_error flat i = Some a ->
+    exists k, nth_error dims i = Some k /\ nth_error (create flat dims) i = Some (create1 a k) /\
+      match k with
+      | None => True
+      | Some k' => exists sh, arg_shape a = Some sh /\ k' < length sh /\ nth k' sh 0 = B
+      end.
+Proof. exact process_create. Qed.
+Print Assumptions C19_process_create.
+
+Theorem C19_create1_cases :
+  (forall b k, create1 (ATd b) (Some k) = BTd (remove_nth b k)) /\
+  (forall s k, create1 (ATen s) (Some k) = BTen (remove_nth s k)) /\
+  (forall b, create1 (ATd b) None = BCopy b) /\
+  (forall a, (forall b, a <> ATd b) -> create1 a None = BSame a).
+Proof. exact create1_cases. Qed.
+Print Assumptions C19_create1_cases.
+
+(* inconsistent sizes are rejected: accepted calls agree on the size of every mapped dim; two sizes => RInconsistent *)
+Theorem C19_process_rejects_inconsistent : forall in_dims args B dims flat i j a1 a2 k1 k2 sh1 sh2,
+  process in_dims args = POk B dims flat ->
+  nth_error flat i = Some a1 -> nth_error dims i = Some (Some k1) -> arg_shape a1 = Some sh1 ->
+  nth_error flat j = Some a2 -> nth_error dims j = Some (Some k2) -> arg_shape a2 = Some sh2 ->
+  nth k1 sh1 0 = nth k2 sh2 0.
+Proof. exact process_rejects_inconsistent. Qed.
+Print Assumptions C19_process_rejects_inconsistent.
+Theorem C19_validate_rejects : forall szs x y, In x szs -> In y szs -> x <> y -> validate szs = inl RInconsistent.
+Proof. exact validate_rejects. Qed.
+Print Assumptions C19_validate_rejects.
+
+Example C19_process_ex :
+  process (PTup [PLeaf (LInt (-1)); PLeaf LNone; PTup [PLeaf (LInt 0); PLeaf LNone]])
+          [PLeaf (ATd [2; 3]); PLeaf (ATd [5]); PTup [PLeaf (ATen [3; 4]); PLeaf AObj]]
+  = POk 3 [Some 1; None; Some 0; None] [ATd [2; 3]; ATd [5]; ATen [3; 4]; AObj]
+  /\ create [ATd [2; 3]; ATd [5]; ATen [3; 4]; AObj] [Some 1; None; Some 0; None] = [BTd [2]; BCopy [5]; BTen [4]; BSame AObj]
+  /\ process (PTup [PLeaf (LInt 0); PLeaf (LInt 0)]) [PLeaf (ATd [2; 3]); PLeaf (ATen [3])] = PRej RInconsistent
+  /\ process (PTup [PLeaf (LInt 2)]) [PLeaf (ATd [2; 3])] = PRej RRange.
+Proof. repeat split; reflexivity. Qed.
+
+(* a tensordict output with 0 <= out_dim <= its batch rank comes back with B inserted at out_dim, whatever its leaves *)
+Theorem C19_unwrap_td_ok : forall B b fs o, o <= length b -> unwrap1 B (OTd b fs) (LInt (Z.of_nat o)) = inr (RTd (insert_at b o B)).
+Proof. exact unwrap_td_ok. Qed.
+Print Assumptions C19_unwrap_td_ok.
+
+(* ================= (c) memoised batched views of locked tensordicts ================= *)
+(* two calls share an entry iff same (in_dim, vmap_level) *)
+Theorem C19_memo_hit_iff : forall n d1 l1 d2 l2,
+  locked n = true -> vcache n = [] ->
+  find_view (d2, l2) (vcache (fst (mstep repo_cfg n (MVmap d1 l1)))) <> None <-> (d1, l1) = (d2, l2).
+Proof. exact memo_hit_iff. Qed.
+Print Assumptions C19_memo_hit_iff.
+
+(* a call gets the view a fresh computation gives: right dim, right level, the current leaf objects *)
+Theorem C19_memo_view : forall n op v,
+  cache_inv n -> snd (mstep repo_cfg n op) = Some v ->
+  v_leaves v = leaves n /\ (forall d l, op = MVmap d l -> v = fresh n d l).
+Proof. exact mstep_view. Qed.
+Print Assumptions C19_memo_view.
+
+(* every call of every history (in-place writes, rebinding writes, unlock / lock, un-batched passes in between, any
+   (in_dim, level)) reads the current content *)
+Theorem C19_memo_current : forall ops n, cache_inv n -> Forall (fun p => fst p = snd p) (mrun repo_cfg n ops).
+Proof. exact memo_current. Qed.
+Print Assumptions C19_memo_current.
+
+Example C19_memo_ex : cache_inv w_node /\
+  mrun repo_cfg w_node [MVmap 0 1; MWrite 0 8; MVmap 0 1; MRebind 0 7 5; MVmap 0 1; MVmap 0 2]
+  = [([(0, 3%Z)], [(0, 3%Z)]); ([(0, 8%Z)], [(0, 8%Z)]); ([(0, 5%Z)], [(0, 5%Z)]); ([(0, 5%Z)], [(0, 5%Z)])].
+Proof. exact memo_current_nonvacuous. Qed.
+
+(* rebinding writes: stale without the erasure at the rebinding site (the tree before the repair of D19 / D60) *)
+Theorem C19_memo_rebind_unrepaired_refuted :
+  exists ops seen cur, In (seen, cur) (mrun {| fix_rebind := false; memo_none := false |} w_node ops) /\ seen <> cur.
+Proof. exact memo_rebind_unrepaired_refuted. Qed.
+Print Assumptions C19_memo_rebind_unrepaired_refuted.
+(* the seeded variant C19-1 (memoised shallow copy of an in_dim = None argument) is inside the model and is wrong *)
+Theorem C19_memo_none_copy_refuted :
+  exists ops seen cur, In (seen, cur) (mrun {| fix_rebind := true; memo_none := true |} w_node ops) /\ seen <> cur.
+Proof. exact memo_none_copy_refuted. Qed.
+Print Assumptions C19_memo_none_copy_refuted.
+
+(* ================= (d) lazy stacks: op classes on the vmapped view ================= *)
+(* full statement: every op class on the hidden-stack-dim view gives the stack of the per-sample results — false (D33) *)
+Definition C19_lazy_hidden_full_statement : Prop :=
+  forall L op o, hidden L = true ->
+    hres_remove (lazy_apply op L) (nmem L) o = insert_at (hop_sample_bs op (mbs L)) o (nmem L).
+Theorem C19_lazy_hidden_partial : forall L op o,
+  hidden L = true -> op <> HRebuild ->
+  hres_remove (lazy_apply op L) (nmem L) o = insert_at (hop_sample_bs op (mbs L)) o (nmem L).
+Proof. exact lazy_hidden_partial. Qed.
+Print Assumptions C19_lazy_hidden_partial.
+Theorem C19_lazy_hidden_rebuild_refuted :
+  exists L o, hidden L = true /\ hres_remove (lazy_apply HRebuild L) (nmem L) o <> insert_at (mbs L) o (nmem L).
+Proof. exact lazy_hidden_rebuild_refuted. Qed.
+Print Assumptions C19_lazy_hidden_rebuild_refuted.
+(* ... for EVERY hidden view and out position the rebuilt result has one dim too many *)
+Theorem C19_lazy_hidden_rebuild_rank : forall L o,
+  hidden L = true ->
+  length (hres_remove (lazy_apply HRebuild L) (nmem L) o) = length (insert_at (mbs L) o (nmem L)) + 1.
+Proof. exact lazy_hidden_rebuild_rank. Qed.
+Print Assumptions C19_lazy_hidden_rebuild_rank.
+(* with the repair suggested for D33 the class is right *)
+Theorem C19_lazy_hidden_rebuild_fixed : forall L o,
+  hidden L = true -> hres_remove (lazy_apply_gen true HRebuild L) (nmem L) o = insert_at (mbs L) o (nmem L).
+Proof. exact lazy_hidden_rebuild_fixed. Qed.
+Print Assumptions C19_lazy_hidden_rebuild_fixed.
+
+(* vmapped dim <> stack dim: identity, rebuilds and nested gets (without extra batch dims) are right, any positions *)
+Theorem C19_lazy_visible_ops : forall L i o op,
+  hidden L = false -> sd L <= length (mbs L) -> i < length (lazy_bs L) -> i <> sd L -> o <= length (lazy_bs L) - 1 ->
+  op = HSelf \/ op = HRebuild \/ op = HNested [] ->
+  hres_remove (lazy_apply op (lazy_add L i)) (nth i (lazy_bs L) 0) o = movedim_shape (lazy_bs L) i o.
+Proof. exact lazy_visible_ops. Qed.
+Print Assumptions C19_lazy_visible_ops.
+(* D192: nested tensordicts with extra batch dims lose them *)
+Theorem C19_lazy_visible_nested_refuted :
+  exists L i o e, hidden L = false /\ i <> sd L /\ i < length (lazy_bs L) /\
+    hres_remove (lazy_apply (HNested e) (lazy_add L i)) (nth i (lazy_bs L) 0) o
+    <> insert_at (hop_sample_bs (HNested e) (remove_nth (lazy_bs L) i)) o (nth i (lazy_bs L) 0).
+Proof. exact lazy_visible_nested_refuted. Qed.
+Print Assumptions C19_lazy_visible_nested_refuted.
+
+Example C19_lazy_ops_ex :
+  let L := {| mbs := [5; 7]; nmem := 3; sd := 1; hidden := false |} in
+  hidden (lazy_add L 1) = true
+  /\ hres_remove (lazy_apply HSelf (lazy_add L 1)) 3 0 = [3; 5; 7]
+  /\ hres_remove (lazy_apply (HNested [2]) (lazy_add L 1)) 3 0 = [3; 5; 7; 2]
+  /\ hres_remove (lazy_apply HDense (lazy_add L 1)) 3 2 = [5; 7; 3]
+  /\ hres_remove (lazy_apply HRebuild (lazy_add L 1)) 3 0 = [3; 5; 3; 7]
+  /\ hres_remove (lazy_apply HRebuild (lazy_add L 0)) 5 2 = [3; 7; 5].
+Proof. repeat split; reflexivity. Qed.
+
+(* NOT a theorem here: that functorch's batching rules implement [lift] (a function applied to batched values computes the
+   function on every sample); it is the single trusted definition of the element-level statements and is exercised by the
+   differential run (programs, modules) on every run. *)
 
 Example C19_ex : let L := {| mbs := [5; 7]; nmem := 3; sd := 1; hidden := false |} in
   lazy_bs L = [5; 3; 7] /\ lazy_bs (lazy_remove (lazy_add L 1) 3 2) = [5; 7; 3]
